@@ -593,6 +593,10 @@ impl nervusdb_query::WriteableGraph for WriteTxn<'_> {
         self.inner.external_id_in_use(external_id)
     }
 
+    fn pending_relationships_of(&self, node: InternalNodeId) -> Vec<EdgeKey> {
+        self.inner.pending_edges_of(node)
+    }
+
     fn add_node_label(
         &mut self,
         node: InternalNodeId,
